@@ -1701,6 +1701,16 @@ func loopEnum(args []string, w *bufio.Writer) {
 		emit("obj 1 "+kind, "readall 1 8 op=11", "peer 1 write 3", "poll", "pending", "write 1 5 op=12", "poll", "peer 1 write 5", "poll", "peer 1 drain", "pending")
 		emit("obj 1 "+kind, "readall 1 8 op=11", "peer 1 write 3", "poll", "setdisp 32", "write 1 5 op=12", "setdisp 0", "peer 1 write 5", "poll", "poll", "peer 1 drain", "pending")
 	}
+	// 5b''. a read started at the dispatch limit on a connection whose previous ReadAll had been parked with progress: it starts from
+	// nothing (its own buffer, offset 0)
+	for _, kind := range []string{"tcp", "adapter", "fifo"} {
+		for _, opn := range []string{"readall", "read"} {
+			emit("obj 1 "+kind, "readall 1 8 op=11", "peer 1 write 3", "poll", "peer 1 write 5", "poll", "pending", "peer 1 write 8", "setdisp 32", opn+" 1 8 op=12", "setdisp 0",
+				"pending", "poll", "pending")
+			emit("obj 1 "+kind, "readall 1 8 op=11", "peer 1 write 3", "poll", "peer 1 write 5", "poll", "pending", "setdisp 32", opn+" 1 8 op=12", "setdisp 0", "pending",
+				"peer 1 write 5", "poll", "peer 1 write 3", "poll", "pending")
+		}
+	}
 	// 5c. a listener reported readable whose queue is empty by the time its handler runs (a handler earlier in the batch took the
 	// connection with the blocking Accept): the accept completes once, whatever it reports, and a later connection is not its
 	emit("obj 1 listener", "obj 2 tcp", "prog 12 peer 1 steal", "accept 1 op=11", "read 2 4 op=12", "peer 2 write 4", "peer 1 connect", "poll", "pending",
